@@ -368,6 +368,14 @@ func init() {
 			for _, v := range dynamics {
 				cases = append(cases, Case{"doc": Doc{{Deg: "1", Sym: "", Vals: one()}, {Deg: "1", Sym: "", Vals: one(), Vel: "mf"}}, "flags": Flags{Vel: v}, "tracks": 1})
 			}
+			// instances repeated word for word (each repetition announces its settings again), written out and as YAML aliases
+			for _, st := range []int{0, 7, 4, 5, 6} {
+				intro := Inst{Deg: "1", Sym: "m7", Vals: []Frac{{1, 2}}, BPM: 96, Key: "Eb", Vel: "mp", Mrk: "intro", Meter: &Frac{6, 8}}
+				fill := Inst{Deg: "5", Sym: "", Vals: one()}
+				d := Doc{intro, fill, intro, {Rest: true, Vals: one(), Txt: "x"}, fill, intro, {Rest: true, Vals: one(), Txt: "x"}}
+				d[0].Style = st
+				cases = append(cases, Case{"doc": d, "flags": Flags{}, "tracks": 1 + st%3})
+			}
 			// every supported key announced in one piece, then the first ones again (more distinct signatures than any small table)
 			{
 				d := Doc{}
